@@ -221,8 +221,22 @@ def term_set(r):
     return sorted(tuple(b) for b in blocks), rest
 
 
+def dense_probe(chk):
+    """beyond what the model evaluates in reasonable time: a hierarchy with more is_a edges than an 8-bit offset counts on
+    fewer than 255 terms, loaded through the default factories and compared with the document directly"""
+    cases = [{'kind': 'dense', 'n': n, 'seed': chk.rng.randrange(10 ** 6)} for n in ((150,) if chk.tier != 'thorough' else (100, 150, 250))]
+    for c, o in zip(cases, chk.run_impl('C05', {'cases': cases, 'workdir': str(chk.work)})['cases']):
+        chk.count('dense-probe')
+        chk.extra.setdefault('dense_probes', []).append({'nodes': o.get('nodes'), 'edges': o.get('edges'), 'mismatches': o.get('n_mismatches', o.get('crash'))})
+        if o.get('n_mismatches') or 'crash' in o:
+            chk.report_violation('C05:dense-hierarchy', {'case': c, 'impl': o, 'theorem': 'C05_edges',
+                                                         'explanation': 'the hierarchy of the loaded ontology differs from the is_a edges of the document (compared directly, no model); the document is rebuilt from the seed'},
+                                 what=f'C05:dense-hierarchy: {o.get("nodes")} terms / {o.get("edges")} is_a edges: {json.dumps(o.get("mismatches", o.get("crash")))[:300]}')
+
+
 def run(chk):
     rng = chk.rng
+    dense_probe(chk)
     cases = GC.load_corpus('C05')
     base = len(cases)
     for i in range(160 if chk.tier == 'quick' else 1600):
@@ -326,6 +340,12 @@ def replay(chk, path):
     rp = json.loads(open(path).read())
     cases = rp['cases'] if 'cases' in rp else [rp['case']]
     for case in cases:
+        if case.get('kind') == 'dense':          # a probe compared with the document directly: rebuilt from its seed
+            o = chk.run_impl('C05', {'cases': [case], 'workdir': str(chk.work)})['cases'][0]
+            log('impl now :', json.dumps(o)[:1500])
+            if o.get('n_mismatches') or 'crash' in o:
+                chk.report_violation(rp.get('signature', 'C05:replay'), {'case': case, 'impl': o}, what='replayed probe still fails')
+            continue
         terms, obs, f = evaluate(chk, [case], tag='replay')
         chk.note_case({'replay': path})
         log('impl now :', json.dumps(obs[0])[:1500])
